@@ -419,7 +419,13 @@ func runPart(p Part, bin, tier string, deadline time.Time, workers int) partResu
 				}
 				args := append([]string{"-tier", tier, "-indices", strings.Join(is, ","), "-out", outFile, "-deadline", fmt.Sprintf("%.0f", left)}, p.Args...)
 				cmd := exec.Command(bin, args...)
-				cmd.Env = append(os.Environ(), "GOMAXPROCS=2", "GOTRACEBACK=all")
+				progress := outFile + ".progress"
+				if p.MemLimitMB > 0 {
+					// bound the address space so that a runaway allocation fails fast instead of eating the machine
+					sh := fmt.Sprintf("ulimit -v %d; exec \"$0\" \"$@\"", p.MemLimitMB*1024)
+					cmd = exec.Command("/bin/sh", append([]string{"-c", sh, bin}, args...)...)
+				}
+				cmd.Env = append(os.Environ(), "GOMAXPROCS=2", "GOTRACEBACK=single", "VENUM_PROGRESS="+progress)
 				var stderr bytes.Buffer
 				cmd.Stderr = &stderr
 				cmd.Stdout = &stderr
@@ -430,7 +436,8 @@ func runPart(p Part, bin, tier string, deadline time.Time, workers int) partResu
 					if len(tail) > 6000 {
 						tail = tail[:3000] + "\n...\n" + tail[len(tail)-3000:]
 					}
-					res.crashes = append(res.crashes, fmt.Sprintf("worker for scenarios %v of %s exited: %v\n%s", idx, p.Harness, err, tail))
+					last, _ := os.ReadFile(progress)
+					res.crashes = append(res.crashes, fmt.Sprintf("worker for scenarios %v of %s exited: %v; case in flight: %s\n%s", idx, p.Harness, err, string(last), tail))
 				} else {
 					b, e2 := os.ReadFile(outFile)
 					var r Report
